@@ -40,6 +40,7 @@ THEOREMS = [
     "Qentem.Round.nearestBits_eq",
     "Qentem.Props.C11P.parse_exact_fixed",
     "Qentem.Props.C11P.parse_exact_int",
+    "Qentem.Props.C09.negexp_one_ulp_every_mantissa",
     "Qentem.Props.C09.negexp_exact_every_mantissa",
     "Qentem.Props.C09.negexp_exceptions_one_ulp_low",
     "Qentem.Props.C11P.parse_exact_small",
@@ -47,8 +48,9 @@ THEOREMS = [
     "Qentem.Props.C11P.parse_exact17",
     "Qentem.Props.C11P.parsesExactly17_partial",
     "Qentem.Props.C11P.roundtrip17_of_formatter",
+    "Qentem.Props.C11P.parse_close17",
 ]
-OPEN = ["Qentem.Props.C09.real_within_one_ulp (proved for: integer mantissa <= 19 digits with exponent >= 0; integer mantissa with negative exponent and d1.ddd[e+-k] numerals (<= 18 digits, fraction not the single digit 0) under 2^(X/27) <= 16*mantissa; open for 0.ddd / .ddd, '1.0'-style fractions, mantissas beyond the 19-unit window, tiny mantissas beyond e-134; searched by the exact-Rat oracle on the C++ results)",
+OPEN = ["Qentem.Props.C09.real_within_one_ulp (proved for every mantissa on: integer mantissa <= 19 digits with exponent of either sign; d1.ddd[e+-k] numerals (<= 18 digits, fraction not the single digit 0); 0.000ddd (<= 8 zeros, <= 17 digits); every %.17g/%.9g-shaped text (parse_close17); the negative-exponent pipeline itself for every mantissa and x < 344 (negexp_one_ulp_every_mantissa); open for .ddd, '1.0'-style fractions, more than 8 leading fraction zeros, mantissas beyond the 19-unit window; searched by the exact-Rat oracle on the C++ results)",
         "Qentem.Props.C09.overflow_reported (proved inside the class theorems: NotANumber only when the value really exceeds every finite double, never a finite pattern above max; open outside the class)"]
 
 D0, D9, DOT, LE, UE, PLUS, MINUS = 48, 57, 46, 101, 69, 43, 45
@@ -293,7 +295,7 @@ def embed(text, rng, mode):
 
 def run(ctx):
     ctx.gen_constants(["StrToNum"])
-    ctx.prove(["Qentem.Props.C09", "Qentem.Props.C11Parser"], THEOREMS, open_statements=OPEN)
+    ctx.prove(["Qentem.Props.C09", "Qentem.Props.C11Parser", "Qentem.Props.C11Float"], THEOREMS, open_statements=OPEN)
     drv = ctx.build_driver()
     exe = ctx.build_harness("strtonum_harness.cpp")
     if not (drv and exe):
